@@ -21,7 +21,10 @@ type ExecPlan struct {
 	CancelAfter int // -1 never; 0 before start; j>0 after the j-th released storage call
 	MaxSteps    int
 	WantStacks  bool
-	Depth       int // request max-depth
+	Depth       int     // request max-depth
+	L2At        int     // fail the k-th SQL statement of the execution (0: none)
+	L2Kind      L2Fault // with this fault
+	CountSQL    bool    // count SQL statements at the L2 seam
 }
 
 func NoFaults() ExecPlan { return ExecPlan{CancelAfter: -1, MaxSteps: 20000} }
@@ -66,6 +69,8 @@ type ExecResult struct {
 	CancelledAt   int  // number of released calls when the cancel was delivered (-1: none)
 	PromptReturn  bool // after a cancel, the request returned without any further storage release
 	ReleasedAfter int  // storage calls released between cancel and return
+	L2Fired       int
+	L2Statements  int
 }
 
 // request kinds that can run inside a bubble
@@ -167,6 +172,20 @@ func (e *Env) Exec(tape *Tape, reqs []*Request, plan ExecPlan) *ExecResult {
 				}()
 			}
 			done := func() bool { return int(doneN.Load()) == len(reqs) }
+			if plan.L2At > 0 {
+				theHub.Arm(plan.L2At, plan.L2Kind)
+				defer func() {
+					log, fired := theHub.Disarm()
+					res.L2Fired = fired
+					res.L2Statements = len(log)
+				}()
+			} else if plan.L2Kind == L2None && plan.CountSQL {
+				theHub.Arm(0, L2None)
+				defer func() {
+					log, _ := theHub.Disarm()
+					res.L2Statements = len(log)
+				}()
+			}
 			res.Outcome = s.Drive(done, plan.MaxSteps)
 			res.CancelledAt = s.CancelledAt
 			res.Returned = done()
